@@ -264,7 +264,8 @@ def run_fault(case, r):
                 ref = Wh.Ref(base.grid)
             K = base.loop_calls
             # the tree must contain exactly one execution per in-loop solve, plus the fault-free one
-            r.check(stats["executions"] == K + 1 and stats["by_deviations"].get(2, 0) == 0, f"C04/fault-tree/{mname(method)}", "fault tree = fault-free run + one execution per in-loop linear solve; no second deviation is reachable (the loop ends at the first failure)", executions=stats["executions"], loop_calls=K, by_deviations=stats["by_deviations"])
+            NK = len(Wh.FAULT_KINDS)
+            r.check(stats["executions"] == NK * K + 1 and stats["by_deviations"].get(2, 0) == 0, f"C04/fault-tree/{mname(method)}", "fault tree = fault-free run + one execution per (in-loop linear solve, kind of failure); no second deviation is reachable (the loop ends at the first failure)", executions=stats["executions"], loop_calls=K, kinds=NK, by_deviations=stats["by_deviations"])
             conv = check_run(r, base, ref, m1, m2, method, l1, form, None, o, tagc)
             if tolname == "unreachable":
                 r.check(conv is False, f"C04/status/unreachable-tolerance/{mname(method)}", "with stopping criteria that cannot be met the run is not reported converged", cfg=tagc)
@@ -292,7 +293,7 @@ def run_fault(case, r):
                     r.check(sec.info["converged"] is False, f"C04/fault/{mname(method)}/flagged-non-converged/reused-object", "a computation whose inner step failed is flagged non-converged also when an earlier computation on the same object converged", first_converged=two.info["converged"], cfg=dict(tagc, second_call_failed_iteration=k - 1))
             for choices, res in executions[1:]:
                 k = res.faulted_at  # 1-based in-loop call = iteration k-1 failed
-                sched_tag = dict(tagc, failed_iteration=k - 1)
+                sched_tag = dict(tagc, failed_iteration=k - 1, failure=res.fault_kind)
                 states.add((num_iter, tolname, tuple(choices)))
                 cell = f"C04/fault/{mname(method)}"
                 if res.exc is not None:
